@@ -46,6 +46,7 @@ def strategy():
             'inner_mode': st.sampled_from(WMODES), 'inherit_sub': st.booleans(),
             'prefix': st.sampled_from(['/sub', '/sub/', '/', '/p/q'])})),
         'decoy': st.booleans(),
+        'front': st.sampled_from([None, None, 'method', 'nb']),
         'decoy_methods': st.sampled_from([None, None, ['POST'], ['GET'], ['PUT', 'DELETE']]),
         'prime': st.sampled_from([None, None, 'PATCH', 'DELETE', 'PUT', 'OPTIONS']),
         'segs': st.lists(seg, min_size=3, max_size=3),
@@ -80,12 +81,13 @@ def _legal_query(q):
 _REC = []
 
 
-def make_ep(rid, names):
-    from clastic import Response
-    ns = {'REC': _REC, 'Response': Response, 'rid': rid}
+def make_ep(rid, names, nb=False):
+    """recording endpoint; nb=True: records, then passes the request on with a non-breaking 404"""
+    from clastic import Response, errors
+    ns = {'REC': _REC, 'Response': Response, 'rid': rid, 'errors': errors}
     args = ', '.join(['request'] + names)
     exec('def ep(%s):\n    p = dict(locals()); p.pop("request")\n    REC.append((rid, p, request.path, request.query_string))\n'
-         '    return Response("route-%%s" %% rid)\n' % args, ns)
+         '    return %s\n' % (args, 'errors.NotFound(is_breaking=False)' if nb else 'Response("route-%s" % rid)'), ns)
     return ns['ep']
 
 
@@ -97,20 +99,35 @@ def build(case):
     names = [e[1] for e in parsed[0] if e[0] == 'b']
     route = Route(pattern, make_ep(0, names), methods=case['methods'], slash_mode=case['route_mode'])
     emb = case['embed']
+    front = case.get('front')
+    full = (emb['prefix'].rstrip('/') if emb else '') + pattern
+    front_route = front_pattern = None
+    if front and full.rstrip('/'):
+        # a route bound *in front* whose pattern is the same but for the trailing slash (a leaf before a branch or the reverse);
+        # it matches the same paths but passes them on: by its method restriction, or by a non-breaking 404
+        front_pattern = full.rstrip('/') if full.endswith('/') else full + '/'
+        if front == 'method':
+            front_route = Route(front_pattern, make_ep(2, names), methods=['PATCH'])
+        else:
+            front_route = Route(front_pattern, make_ep(2, names, nb=True))
     if emb:
         inner = Application(slash_mode=emb['inner_mode'])
         inner.add(route, inherit_slashes=case['inherit'])
         m1 = emb['inner_mode'] if case['inherit'] else case['route_mode']
-        app = Application([SubApplication(emb['prefix'], inner, inherit_slashes=emb['inherit_sub'])],
+        app = Application(([front_route] if front_route else []) + [SubApplication(emb['prefix'], inner, inherit_slashes=emb['inherit_sub'])],
                           slash_mode=case['app_mode'])
         mode = case['app_mode'] if emb['inherit_sub'] else m1
         prefix = emb['prefix'].rstrip('/')
     else:
         app = Application(slash_mode=case['app_mode'])
+        if front_route:
+            app.add(front_route)
         app.add(route, inherit_slashes=case['inherit'])
         mode = case['app_mode'] if case['inherit'] else case['route_mode']
         prefix = ''
     table = [M.Entry(0, prefix + pattern, case['methods'], 'answer', mode)]
+    if front_route:
+        table.insert(0, M.Entry(2, front_pattern, ['PATCH'] if front == 'method' else None, 'answer' if front == 'method' else 'nbret404', case['app_mode']))
     if case['decoy']:
         dm = case.get('decoy_methods')
         app.add(Route('/<dq*>', make_ep(1, ['dq']), methods=dm))
@@ -176,7 +193,9 @@ def body(case, ctx):
         elif r.status != exp['status']:
             ctx.mismatch('status', '%s %r (mode %s, pattern %s): expected %s got %s' % (method, path, mode, full_pattern, exp['status'], r.status), rc)
         elif exp['kind'] == 'answer':
-            if len(_REC) != 1 or _REC[0][0] != exp['rid'] or not any(U.same_assignment(_REC[0][1], a) for a in exp['params']):
+            # (a front route that passes the request on has recorded itself before the answering one)
+            if not _REC or len(_REC) > 2 or _REC[-1][0] != exp['rid'] or not any(U.same_assignment(_REC[-1][1], a) for a in exp['params']) \
+                    or (len(_REC) == 2 and (_REC[0][0] != 2 or case.get('front') != 'nb')):
                 if not _d3(table, exp, path):
                     ctx.mismatch('direct-params', '%s %r: endpoint saw %r, model %r' % (method, path, _REC, exp['params'][:2]), rc)
         return
@@ -184,8 +203,8 @@ def body(case, ctx):
     if r.status not in (301, 302, 303, 307, 308):
         ctx.mismatch('missing-redirect', '%s %r (mode %s, pattern %s): redirect due, got %s' % (method, path, mode, full_pattern, r.status), rc)
         return
-    if _REC:
-        ctx.mismatch('redirect-after-execute', 'endpoint ran although a redirect was issued', rc)
+    if any(rec[0] == exp['rid'] or rec[0] != 2 for rec in _REC):      # (a front route that passed the request on may have run before)
+        ctx.mismatch('redirect-after-execute', 'endpoint ran although a redirect was issued: %r' % (_REC,), rc)
     loc = r.header('Location')
     if not loc:
         ctx.mismatch('no-location', 'redirect without Location', rc)
@@ -220,14 +239,20 @@ def body(case, ctx):
     env2 = make_environ('/', method, qraw, script_name=script, raw_path_info=p2)
     r2 = call_environ(app, env2)
     ctx.requests += 1
-    if r2.exc is not None or r2.status != 200:
-        ctx.mismatch('follow-not-200', 'following %r gave %s %r' % (loc, r2.status, r2.exc), rc)
-        return
     exp2 = M.dispatch(table, canonical, method)
-    if len(_REC) != 1 or _REC[0][0] != exp['rid'] or not any(U.same_assignment(_REC[0][1], a) for a in exp2['params']) \
-            or _REC[0][2] != canonical:
-        ctx.mismatch('follow-other-resource', 'following %r reached %r, expected route %s with %r at %r'
-                     % (loc, _REC, exp['rid'], exp2['params'][:1], canonical), rc)
+    if r2.exc is not None or r2.status != (exp2['status'] if exp2['kind'] != 'redirect' else 200):
+        ctx.mismatch('follow-not-200', 'following %r gave %s %r (the route answers %s there)' % (loc, r2.status, r2.exc, exp2.get('status')), rc)
+        return
+    # the route that issued the redirect runs at the canonical path, with the parameters it would have had (only a front route that
+    # passes requests on may run before it; it may itself pass the request on - then the model says who answers in the end)
+    me = [e for e in table if e.rid == exp['rid']][0]
+    mine = M.dispatch([M.Entry(me.rid, me.pattern, me.methods, 'answer', me.mode)], canonical, method).get('params') or []
+    hit = [rec for rec in _REC if rec[0] == exp['rid']]
+    if len(hit) != 1 or not any(U.same_assignment(hit[0][1], a) for a in mine) or hit[0][2] != canonical \
+            or (exp2['kind'] == 'answer' and _REC[-1][0] != exp2['rid']) or len(_REC) > 2 \
+            or any(rec[0] != 2 for rec in _REC[:_REC.index(hit[0])]):
+        ctx.mismatch('follow-other-resource', 'following %r reached %r, expected route %s with %r at %r (answered in the end by %s)'
+                     % (loc, _REC, exp['rid'], mine[:1], canonical, exp2.get('rid')), rc)
         return
     ctx.event('redirect-followed')
     if any(any(ch in s for ch in '?#%;&= +') or any(ord(ch) > 127 for ch in s) for s in segs) or query or method != 'GET':
